@@ -197,6 +197,10 @@ impl SendRateComp {
         let loss_rate = feedback.loss_rate;
         let rate_limited = feedback.rate_limited;
 
+        // The first feedback report carries no receive rate: there is no earlier report to measure
+        // an interval from, and a placeholder of zero is given instead
+        let first_feedback = self.rtt_s.is_none();
+
         let (rtt_s, rtt_ms) = self.update_rtt(rtt_sample_s);
         let rto_s = self.update_rto(rtt_s, self.send_rate);
 
@@ -207,7 +211,10 @@ impl SendRateComp {
         let loss_increase = loss_rate > self.prev_loss_rate;
 
         let recv_limit =
-            if rate_limited {
+            if first_feedback {
+                // X_recv_set keeps its initial value until a receive rate has been measured
+                u32::MAX
+            } else if rate_limited {
                 // If rate limited during the interval, the interval was not entirely data-limited
                 let max_val = self.recv_rate_set.rate_limited_update(now_ms, recv_rate, rtt_ms);
                 max_val.saturating_mul(2)
